@@ -54,7 +54,7 @@ def complete_dict(module_context, code_lines, leaf, position, string, fuzzy):
 
 
 def _completions_for_dicts(inference_state, dicts, literal_string, cut_end_quote, fuzzy):
-    for dict_key in sorted(_get_python_keys(dicts), key=lambda x: repr(x)):
+    for dict_key in sorted(set(_get_python_keys(dicts)), key=lambda x: repr(x)):
         dict_key_str = _create_repr_string(literal_string, dict_key)
         if dict_key_str.startswith(literal_string):
             name = StringName(inference_state, dict_key_str[:-len(cut_end_quote) or None])
